@@ -308,6 +308,24 @@ where
     /// This function changes the state of internal random generator.
     /// It is mainly useful to study variance of the estimator as in tests, and should be ignored for other purposes.
     /// **If a database of hashed value is used, it must not as to keep coherent hashing.**
+    /// verification hook : the m*l data indices selected by the last hash_set (sorted per position) and their race values
+    #[cfg(probminhash_verif)]
+    pub fn verif_selected(&self) -> (Vec<u64>, Vec<f64>) {
+        (
+            self.min_store.indices.clone(),
+            self.min_store.values.clone(),
+        )
+    }
+
+    /// verification hook : maximum reported by the tracker and l-th smallest value per position
+    #[cfg(probminhash_verif)]
+    pub fn verif_registers(&self) -> (Vec<f64>, f64) {
+        (
+            (0..self.m).map(|k| self.max_tracker.get_value(k)).collect(),
+            self.max_tracker.get_max_value(),
+        )
+    }
+
     pub fn change_rng_seed(&mut self) {
         self.min_store.change_wyhash_seed();
         self.seed = self.seed_rng.next_u64();
